@@ -921,6 +921,10 @@ func (g *clientGen) history(n int) []string {
 		case 5, 6:
 			if len(g.live) > 0 {
 				id := g.live[r.intn(len(g.live))]
+				if r.chance(1, 4) { // the clock is already past the deadline, no collector tick yet: the response still counts
+					g.now += g.rto*r.rangeIn(1, 3) + 1
+					fs = append(fs, fNums(5, g.now))
+				}
 				if r.chance(1, 5) { // first a datagram for this transaction that does not decode: dropped, no effect
 					fs = append(fs, withBytes([]int{3}, damagedResponse(r, id)))
 				}
@@ -1101,6 +1105,7 @@ func runC11(o *out, thorough bool, r *rng, _ []string) map[string]interface{} {
 	runClientRandom(o, r, n, 65535, false)
 	moreClientScenarios(o, r)
 	setRTORaceScenario(o, r, 10)
+	timingScenarios(o, r)
 	// schedule sweep: one transaction, clock stepped to just before / at / just after each deadline
 	rtos := []int{7, 100, 1000, 3000000000, 20000000000} // up to 20 s: the last deadline lies minutes after Start
 	for _, v := range litIntsIn(1000000, 1<<50, 4) {
@@ -1229,6 +1234,7 @@ func runC15(o *out, thorough bool, r *rng, _ []string) map[string]interface{} {
 	}
 	setRTORaceScenario(o, r, 10)
 	closeLivenessScenarios(o, r)
+	moreCloseShapes(o, r)
 	for i := 0; i < n; i++ {
 		g := &clientGen{r: r, rto: r.pick([]int{10, 100}), maxA: r.pick([]int{7, 0}), maxSize: 200}
 		fs := g.history(r.rangeIn(0, 12))
@@ -1414,6 +1420,7 @@ type raceConn struct {
 	writes   map[[12]byte]int
 	holdTID  [12]byte
 	holdOn   bool
+	holdFirst bool // hold the very first write of holdTID (the one made by Start), not only retransmissions
 	held     chan struct{}
 	release  chan struct{}
 	idle     chan struct{}
@@ -1441,7 +1448,7 @@ func (c *raceConn) Write(p []byte) (int, error) {
 	c.mu.Lock()
 	c.writes[tid]++
 	n := c.writes[tid]
-	hold := c.holdOn && tid == c.holdTID && n >= 2
+	hold := c.holdOn && tid == c.holdTID && (n >= 2 || c.holdFirst)
 	if hold {
 		c.holdOn = false
 	}
@@ -1971,6 +1978,43 @@ func moreClientScenarios(o *out, r *rng) {
 		}
 		o.count("zero-id-through-retransmissions")
 	}
+	// (4c) the response arrives while Start's own Write is still in progress, and that Write then fails: Start
+	// reports the failure, the handler has run once - and the NEXT transaction's response still finds its handler
+	for i := 0; i < 10; i++ {
+		fallback := 0
+		e := mk(false, stun.WithHandler(func(stun.Event) { fallback++ }))
+		if e == nil {
+			continue
+		}
+		idA, idB := 7700+i, 7800+i
+		e.conn.mu.Lock()
+		e.conn.holdTID, e.conn.holdOn, e.conn.holdFirst = clientTID(idA), true, true
+		e.conn.mu.Unlock()
+		startDone := make(chan error, 1)
+		go func() { startDone <- startTID(e, idA, clientTID(idA), 20) }()
+		select {
+		case <-e.conn.held:
+		case <-time.After(2 * time.Second):
+		}
+		e.conn.rd <- response(r, idA, 0)
+		idle(e)
+		close(e.conn.release) // the Write fails now
+		select {
+		case <-startDone:
+		case <-time.After(2 * time.Second):
+		}
+		_ = startTID(e, idB, clientTID(idB), 20)
+		e.conn.rd <- response(r, idB, 4)
+		idle(e)
+		nA, nB := count(e, idA), count(e, idB)
+		if nA > 1 || nB != 1 {
+			d := fmt.Sprintf("x response-during-the-first-write #%d first: invoked=%d; next transaction: invoked=%d fallback=%d", i, nA, nB, fallback)
+			o.failFor("C12", "event-delivered-to-another-transaction", d)
+			o.failFor("C10", "handler-not-invoked-exactly-once", d)
+		}
+		_ = e.c.Close()
+		o.count("response-during-the-first-write")
+	}
 	// (5) the library's own ticker collector with a custom clock: deadlines are judged by that clock
 	for i := 0; i < 6; i++ {
 		clock := &vclock{now: agentBase}
@@ -2343,6 +2387,230 @@ func closeLivenessScenarios(o *out, r *rng) {
 			o.failFor("C15", "close-did-not-return", fmt.Sprintf("x default collector ticking every %v (#%d): Close not back after 3 s", rate, i))
 		}
 		o.count("close-with-slow-ticker")
+	}
+}
+
+// timingScenarios (C11): (a) a collector tick whose time lags the clock: the retransmission is written at the
+// clock's time and the next deadline counts from there; (b) the retransmission of one request is stalled in
+// Write while a tick on another goroutine retransmits another request: the stalled Write's bytes stay what they
+// were; (c) a client over a real TCP connection (loopback, skipped when there is none) retransmits like any other
+func timingScenarios(o *out, r *rng) {
+	for i := 0; i < 6; i++ {
+		clock := &vclock{now: agentBase}
+		coll := &manualCollector{}
+		conn := &raceConn{rd: make(chan []byte), closedCh: make(chan struct{}), writes: map[[12]byte]int{},
+			held: make(chan struct{}, 1), release: make(chan struct{}), idle: make(chan struct{}, 1)}
+		c, err := stun.NewClient(conn, stun.WithClock(clock), stun.WithCollector(coll), stun.WithRTO(100))
+		if err != nil {
+			continue
+		}
+		tid := clientTID(9300 + i)
+		raw := stunMsg(r, 9300+i, 20)
+		_ = c.Start(&stun.Message{TransactionID: tid, Raw: raw}, func(stun.Event) {})
+		writes := func() int { conn.mu.Lock(); defer conn.mu.Unlock(); return conn.writes[tid] }
+		lag := 20 + 10*i
+		clock.set(agentBase.Add(time.Duration(101 + lag)))
+		coll.f(agentBase.Add(101)) // the tick's time lags the clock: retransmission #1 is written at 101+lag
+		w1 := writes()
+		clock.set(agentBase.Add(time.Duration(101 + lag + 199)))
+		coll.f(agentBase.Add(time.Duration(101 + lag + 199))) // 199 after that write: 2*RTO have not passed
+		w2 := writes()
+		clock.set(agentBase.Add(time.Duration(101 + lag + 201)))
+		coll.f(agentBase.Add(time.Duration(101 + lag + 201)))
+		w3 := writes()
+		if w1 != 2 || w2 != 2 || w3 != 3 {
+			o.failFor("C11", "retransmitted-before-deadline", fmt.Sprintf("x tick time lagging the clock by %d: writes after the lagging tick / 199 later / 201 later = %d / %d / %d (want 2 / 2 / 3)", lag, w1, w2, w3))
+		}
+		_ = c.Close()
+		o.count("lagging-tick")
+	}
+	for i := 0; i < 6; i++ {
+		clock := &vclock{now: agentBase}
+		coll := &manualCollector{}
+		conn := &raceConn{rd: make(chan []byte), closedCh: make(chan struct{}), writes: map[[12]byte]int{},
+			held: make(chan struct{}, 1), release: make(chan struct{}), idle: make(chan struct{}, 1)}
+		c, err := stun.NewClient(conn, stun.WithClock(clock), stun.WithCollector(coll), stun.WithRTO(100))
+		if err != nil {
+			continue
+		}
+		sizeA, sizeB := []int{600, 1500, 2040, 3000}[i%4], []int{700, 1500, 2044, 3000}[(i+1)%4]
+		tidA, tidB := clientTID(9400+i), clientTID(9450+i)
+		conn.mu.Lock()
+		conn.holdTID, conn.holdOn = tidA, true
+		conn.mu.Unlock()
+		_ = c.Start(&stun.Message{TransactionID: tidA, Raw: stunMsg(r, 9400+i, sizeA)}, func(stun.Event) {})
+		clock.set(agentBase.Add(50))
+		_ = c.Start(&stun.Message{TransactionID: tidB, Raw: stunMsg(r, 9450+i, sizeB)}, func(stun.Event) {})
+		t1 := agentBase.Add(101)
+		clock.set(t1)
+		tick1 := make(chan struct{})
+		go func() { coll.f(t1); close(tick1) }() // A's retransmission: held inside Write
+		select {
+		case <-conn.held:
+		case <-time.After(2 * time.Second):
+		}
+		t2 := agentBase.Add(151)
+		clock.set(t2)
+		coll.f(t2) // B's retransmission, on this goroutine, while A's Write is in progress
+		close(conn.release)
+		<-tick1
+		conn.mu.Lock()
+		mut := conn.mutated
+		conn.mu.Unlock()
+		if mut {
+			o.failFor("C11", "retransmission-buffer-changed-during-write", fmt.Sprintf("x #%d a %d-byte request's retransmission stalled in Write while a %d-byte request was retransmitted on another goroutine", i, sizeA, sizeB))
+		}
+		_ = c.Close()
+		o.count("concurrent-retransmissions")
+	}
+	// (c) a real *net.TCPConn
+	ln, err := net.Listen("tcp", "127.0.0.1:0")
+	if err != nil {
+		o.count("tcp-loopback-unavailable")
+		return
+	}
+	defer ln.Close()
+	got := make(chan int, 1)
+	go func() {
+		sc, err := ln.Accept()
+		if err != nil {
+			got <- -1
+			return
+		}
+		defer sc.Close()
+		total := 0
+		buf := make([]byte, 4096)
+		_ = sc.SetReadDeadline(time.Now().Add(3 * time.Second))
+		for {
+			n, err := sc.Read(buf)
+			total += n
+			if err != nil {
+				break
+			}
+		}
+		got <- total
+	}()
+	tc, err := net.Dial("tcp", ln.Addr().String())
+	if err != nil {
+		o.count("tcp-loopback-unavailable")
+		return
+	}
+	clock := &vclock{now: agentBase}
+	coll := &manualCollector{}
+	c, err := stun.NewClient(tc, stun.WithClock(clock), stun.WithCollector(coll), stun.WithRTO(100))
+	if err != nil {
+		return
+	}
+	raw := stunMsg(r, 9500, 20)
+	done := make(chan stun.Event, 1)
+	_ = c.Start(&stun.Message{TransactionID: clientTID(9500), Raw: raw}, func(e stun.Event) { done <- e })
+	now := agentBase
+	for k := 1; k <= 3; k++ {
+		now = now.Add(time.Duration(100*k + 1))
+		clock.set(now)
+		coll.f(now)
+	}
+	select {
+	case e := <-done:
+		o.failFor("C11", "timeout-before-last-deadline", fmt.Sprintf("x over a real TCP connection the transaction ended after 3 of 8 deadlines: %v", e.Error))
+	default:
+	}
+	_ = c.Close()
+	if total := <-got; total != 4*len(raw) {
+		o.failFor("C11", "retransmission-count-over-tcp", fmt.Sprintf("x over a real TCP connection: %d bytes reached the peer after the first transmission and three deadlines, want %d", total, 4*len(raw)))
+	}
+	o.count("real-tcp-connection")
+}
+
+// more connection shapes for Close (C15): a peer that keeps sending things that are not STUN, under WithNoConnClose;
+// a connection whose SetReadDeadline exists and does nothing
+type chattyConn struct {
+	closed atomic.Bool
+	reads  atomic.Int64
+}
+
+func (c *chattyConn) Read(p []byte) (int, error) {
+	c.reads.Add(1)
+	time.Sleep(50 * time.Microsecond)
+	return copy(p, []byte{0x17, 0x03, 0x03, 0x00}), nil // never an error, never a STUN message
+}
+func (c *chattyConn) Write(p []byte) (int, error) { return len(p), nil }
+func (c *chattyConn) Close() error                { c.closed.Store(true); return nil }
+
+type deafDeadlineConn struct {
+	stallConn
+}
+
+func (c *deafDeadlineConn) SetReadDeadline(time.Time) error { return nil } // as many wrappers do
+func (c *deafDeadlineConn) SetDeadline(time.Time) error     { return nil }
+
+func moreCloseShapes(o *out, r *rng) {
+	for i := 0; i < 3; i++ {
+		conn := &chattyConn{}
+		c, err := stun.NewClient(conn, stun.WithNoConnClose(), stun.WithRTO(time.Hour))
+		if err != nil {
+			continue
+		}
+		_ = c.Start(&stun.Message{TransactionID: clientTID(9600 + i), Raw: stunMsg(r, 9600+i, 20)}, func(stun.Event) {})
+		time.Sleep(2 * time.Millisecond)
+		closeDone := make(chan error, 1)
+		go func() { closeDone <- c.Close() }()
+		select {
+		case <-closeDone:
+			n1 := conn.reads.Load()
+			time.Sleep(5 * time.Millisecond)
+			if conn.reads.Load() > n1+1 {
+				o.failFor("C15", "reader-alive-after-close", fmt.Sprintf("x WithNoConnClose over a peer that keeps sending non-STUN data: the reader still reads after Close returned (#%d)", i))
+			}
+		case <-time.After(3 * time.Second):
+			o.failFor("C15", "close-did-not-return", fmt.Sprintf("x WithNoConnClose over a peer that keeps sending non-STUN data (#%d): Close not back after 3 s", i))
+		}
+		o.count("close-with-chatty-peer")
+	}
+	for i := 0; i < 3; i++ {
+		conn := &deafDeadlineConn{stallConn{closedCh: make(chan struct{}), inWrite: make(chan struct{}, 1)}}
+		c, err := stun.NewClient(conn, stun.WithRTO(time.Hour))
+		if err != nil {
+			continue
+		}
+		time.Sleep(time.Millisecond)
+		closeDone := make(chan error, 1)
+		go func() { closeDone <- c.Close() }()
+		select {
+		case <-closeDone:
+		case <-time.After(3 * time.Second):
+			o.failFor("C15", "close-did-not-return", fmt.Sprintf("x a connection whose SetReadDeadline does nothing, reader idle in Read (#%d): Close not back after 3 s", i))
+			_ = conn.Close()
+		}
+		o.count("close-with-deaf-deadline")
+	}
+	// after all that (stalled writers included): the pooled transaction objects are still one per transaction
+	{
+		conn := &stallConn{closedCh: make(chan struct{}), inWrite: make(chan struct{}, 1)}
+		c, err := stun.NewClient(conn, stun.WithRTO(time.Hour))
+		if err == nil {
+			var mu sync.Mutex
+			seen := map[int][]int{}
+			for k := 0; k < 40; k++ {
+				k := k
+				_ = c.Start(&stun.Message{TransactionID: clientTID(9700 + k), Raw: stunMsg(r, 9700+k, 20)}, func(e stun.Event) {
+					mu.Lock()
+					seen[k] = append(seen[k], agentIDOf(e.TransactionID))
+					mu.Unlock()
+				})
+			}
+			_ = c.Close()
+			mu.Lock()
+			for k := 0; k < 40; k++ {
+				if len(seen[k]) != 1 || seen[k][0] != 9700+k {
+					o.failFor("C15", "handler-not-invoked-exactly-once", fmt.Sprintf("x after Close calls that overlapped stalled writers, a fresh client with 40 transactions: handler %d saw events for %v", k, seen[k]))
+					o.failFor("C10", "handler-not-invoked-exactly-once", fmt.Sprintf("x after Close calls that overlapped stalled writers, a fresh client with 40 transactions: handler %d saw events for %v", k, seen[k]))
+					break
+				}
+			}
+			mu.Unlock()
+		}
+		o.count("pool-sanity-after-stalls")
 	}
 }
 
